@@ -18,10 +18,15 @@ Apply(e) ==
   CASE e.op = "new"  -> syms' = <<>> /\ input' = <<>> /\ k' = 0
     [] e.op = "add"  -> Add(e.sym, e.type) /\ UNCHANGED <<input, k>>
     [] e.op = "scan" -> input' = e.input /\ k' = 0 /\ UNCHANGED syms
-    [] e.op = "next" -> k' = Next(input, k)[3] /\ UNCHANGED <<syms, input>>
+    [] e.op = "next" -> \* continue from the OBSERVED cursor, so that one bad token does not
+                        \* put the rest of the segment out of step (each event is judged on its own)
+                        /\ k' = IF e.obs.k \in 0 .. Len(input) THEN e.obs.k
+                                ELSE IF k < Len(input) THEN Next(input, k)[3] ELSE k
+                        /\ UNCHANGED <<syms, input>>
 
 Fails(e) ==
   IF e.op # "next" THEN ""
+  ELSE IF k >= Len(input) THEN ""      \* driven only while characters remain; nothing to judge at the end
   ELSE LET r == Next(input, k) IN
           F(e.obs.text = r[2], "text is not the longest registered symbol (or the single next character)")
        \o F(e.obs.type = r[1], "type is not the type registered for that symbol")
